@@ -243,7 +243,14 @@ func keysFromMessage(val reflect.Value, path []string, start int) ([]string, err
 	if val.Kind() != reflect.Struct {
 		return nil, fmt.Errorf("path %q traversal error: cannot lookup field %q (index %d in the path) in a %q value", strings.Join(path, "."), path[start], start, val.Kind())
 	}
-	valField := val.FieldByName(strings.Title(path[start]))
+	var valField reflect.Value
+	if sf, ok := val.Type().FieldByName(strings.Title(path[start])); ok {
+		// FieldByName panics when the field is promoted from a nil embedded pointer.
+		var err error
+		if valField, err = val.FieldByIndexErr(sf.Index); err != nil {
+			return nil, fmt.Errorf("path %q traversal error: cannot lookup field %q (index %d in the path): %v", strings.Join(path, "."), path[start], start, err)
+		}
+	}
 
 	if valField.Kind() != reflect.Slice {
 		return keysFromMessage(valField, path, start+1)
